@@ -22,9 +22,18 @@ if SRC not in sys.path:
 warnings.simplefilter("ignore")
 if int(os.environ.get("VERIF_SHARD", "0") or 0) % 4 == 3:
     # every fourth shard runs with logging switched on at DEBUG level (a legal configuration of the host application):
-    # all log records are created - a log call that fails for some input fails here - but a NullHandler discards them
-    logging.getLogger().addHandler(logging.NullHandler())
-    logging.getLogger().setLevel(logging.DEBUG)
+    # all log records
+    # are created and rendered by a handler that - like pytest's caplog handler - does not swallow errors, and the
+    # package's loggers are opened for its own trace level below DEBUG (see trace_logging)
+    class _RenderingHandler(logging.Handler):
+        def emit(self, record):
+            self.format(record)  # msg % args; the text is thrown away
+
+        def handleError(self, record):
+            raise  # pylint:disable=misplaced-bare-raise
+
+    logging.getLogger().addHandler(_RenderingHandler())
+    logging.getLogger().setLevel(1)
 else:
     logging.disable(logging.CRITICAL)  # the parsers put a traceback into a log record for every rejected string
 
@@ -51,6 +60,14 @@ from ahbicht.models.condition_nodes import EvaluatedFormatConstraint  # noqa: E4
 from ahbicht.models.content_evaluation_result import ContentEvaluationResult, ContentEvaluationResultSchema  # noqa: E402
 
 FMT, VER = EdifactFormat.UTILMD, EdifactFormatVersion.FV2210
+
+if int(os.environ.get("VERIF_SHARD", "0") or 0) % 4 == 2:
+    # every fourth shard runs like an application (or test runner) that turns warnings into errors, for the warnings
+    # attributed to ahbicht's own modules: "python -W error::DeprecationWarning:ahbicht..." is a legal way to run a
+    # library, and a warning raised there must not change which strings are accepted or what an evaluation returns.
+    # (compile time SyntaxWarnings stay ignored: the unchanged tree has an invalid escape sequence in a docstring)
+    warnings.filterwarnings("error", module=r"ahbicht(\.|$)")
+    warnings.filterwarnings("ignore", category=SyntaxWarning)
 
 
 class HarnessAbort(BaseException):
@@ -303,3 +320,18 @@ def preheat_parse_caches():
             if not res.ok:
                 return res
     return None
+
+
+def trace_logging():
+    """
+    In the logging shards: open every logger of the package for all levels (ahbicht logs cache hits at its own level 5
+    and pins its loggers to DEBUG at import time, so this has to be repeated after late imports).  A no-op elsewhere.
+    """
+    if int(os.environ.get("VERIF_SHARD", "0") or 0) % 4 != 3:
+        return
+    for name, logger in list(logging.root.manager.loggerDict.items()):
+        if name.startswith("ahbicht") and isinstance(logger, logging.Logger):
+            logger.setLevel(1)
+
+
+trace_logging()
